@@ -9,7 +9,7 @@ from mirsmt.models_na import Mat, Iso
 
 ENTRIES = ('inverse', 'inverse_continuing', 'inverse_5dof', 'inverse_continuing_5dof')
 
-def entry(ck, name, n=2, dof=6, cons='none', prev='finite', sign5=1, weight=None, n_shift=None):
+def entry(ck, name, n=2, dof=6, cons='none', prev='finite', sign5=1, weight=None, n_shift=None, pipeline=False):
     """cons: 'none' | 'sym' (six symbolic arcs in [-2pi,2pi]); prev: 'finite' ([-2pi,2pi]^6) | 'sentinel'; weight: None -> symbolic in [0,1]
     returns dict with engine, end states [(state, output VecV)], inputs and the log of summaries/candidates"""
     eng = ck.engine(unwind=8, pi_rational=True)
@@ -38,7 +38,7 @@ def entry(ck, name, n=2, dof=6, cons='none', prev='finite', sign5=1, weight=None
         pz = [z3.Real(f'prev{j}') for j in range(6)]
         for v in pz: st.assume(z3.And(v >= -TWO_PI, v <= TWO_PI))
         pvec = Agg([F(x) for x in pz]); info['prev'] = pz
-    j6 = z3.Real('j6arg'); info['j6'] = j6
+    j6 = z3.Real('j6arg'); info['j6'] = j6; st.assume(z3.And(j6 >= -2 * TWO_PI, j6 <= 2 * TWO_PI))
     ik.install_pose_oracles(eng, info)
     # summaries: n arbitrary finite vectors in [-pi,pi] per call (n_shift for the shifted re-solves), J6 = the caller's value for the 5-DOF kernel
     seen_calls = set()
@@ -47,6 +47,7 @@ def entry(ck, name, n=2, dof=6, cons='none', prev='finite', sign5=1, weight=None
             # the k-th solver call on this path (deterministic function of the path: same k -> same shifted pose -> same answer symbols)
             k = st_.aux.get('ik_calls', 0); st_.aux['ik_calls'] = k + 1
             cnt = n if (k == 0 or n_shift is None) else n_shift
+            if five and a_[2].nan is True: cnt = 0      # the 5-DOF kernel cross-checks the position through forward(): a NaN J6 makes every check fail
             sols = []
             for i in range(cnt):
                 js = [z3.Real(f'ik{k}_s{i}_j{j}') for j in range(6)]
@@ -60,6 +61,7 @@ def entry(ck, name, n=2, dof=6, cons='none', prev='finite', sign5=1, weight=None
         return h
     eng.overrides[eng.find('::inverse_intern', 'kinematics_impl::<impl at')] = summary(False)
     eng.overrides[eng.find('::inverse_intern_5_dof', 'kinematics_impl::<impl at')] = summary(True)
+    if pipeline: install_pipeline_summaries(eng, info)
     rr = eng.tmp_ref(st, 0, robot); rp = eng.tmp_ref(st, 0, pose)
     if name == 'inverse': args = [rr, rp]
     elif name == 'inverse_5dof': args = [rr, rp, F(j6)]
@@ -72,7 +74,265 @@ def entry(ck, name, n=2, dof=6, cons='none', prev='finite', sign5=1, weight=None
     info['results'] = res
     return info
 
+def install_pipeline_summaries(eng, info):
+    """normalize_near, sort_by_closeness, filter_constraints_compliant, constraints_compliant replaced by logging summaries whose contracts are
+    proved on their own MIR elsewhere (C04 leaf + comparator, C07 filter): the entry point is then checked for HOW it composes them"""
+    info.update(norm_calls=[], sort_calls=[], filter_calls=[], ccomp_calls=[])
+    def normalize_near(e, st, fr, f, a):
+        ref, p = a; x = e.read_ref(st, ref)
+        x2 = fresh('nn'); m = fresh('nnk', 'int')
+        st.assume(z3.And(x2 == x.v + TWO_PI * z3.ToReal(m), m >= -3, m <= 3, z3.Implies(x.v == p.v, x2 == x.v), z3.Implies(z3.And(x.v >= -PI, x.v <= PI, p.v >= -TWO_PI, p.v <= TWO_PI), z3.And(x2 - p.v <= PI, p.v - x2 <= PI))))
+        out = F(x2, x.nan, x.inf); e.write_ref(st, ref, out)
+        info['norm_calls'].append(dict(ref=ref, src=x, prev=p, out=out)); return [(st, UNIT)]
+    eng.overrides[eng.find('kinematics_impl::normalize_near')] = normalize_near
+    def sort_by(e, st, fr, f, a):
+        lst = e.deref(st, a[1]); info['sort_calls'].append(dict(lst=lst, prev=e.deref(st, a[2]), prev_ref=a[2])); return [(st, UNIT)]
+    eng.overrides[eng.find('::sort_by_closeness', 'kinematics_impl::<impl at')] = sort_by
+    def filt(e, st, fr, f, a):
+        rob = e.deref(st, a[0]); lst = a[1]
+        if rob.items[1].disc == 0: out = lst
+        else: out = VecV([(b_and(g, z3.Bool(f'compliant{len(info["filter_calls"])}_{i}')), v) for i, (g, v) in enumerate(lst.ents)])
+        info['filter_calls'].append(dict(lst=lst, out=out)); return [(st, out)]
+    eng.overrides[eng.find('::filter_constraints_compliant', 'kinematics_impl::<impl at')] = filt
+    def ccomp(e, st, fr, f, a):
+        rob = e.deref(st, a[0])
+        r = True if rob.items[1].disc == 0 else z3.Bool(f'cand_compliant{len(info["ccomp_calls"])}')
+        info['ccomp_calls'].append(dict(arg=a[1], res=r)); return [(st, r)]
+    eng.overrides[eng.find('::constraints_compliant', 'kinematics_impl::<impl at')] = ccomp
+
+def check_pipeline(ck, name, kw, props):
+    """inverse_continuing / inverse_continuing_5dof: how the entry point composes kernel, singular candidate, normalisation, sorting, filtering"""
+    info = entry(ck, name, pipeline=True, **kw)
+    eng = info['eng']
+    five = name.endswith('5dof')
+    label = f"{name}[pipeline,{','.join(f'{k}={v}' for k, v in kw.items())}]: "
+    S = sorted(info['summaries'], key=lambda r: r['call']); first = S[0]['sols'] if S else []
+    prev = info['prev']; pose = info['pose']
+    def search(prop):
+        def f():
+            c = dict(entry=name, dof=info['dof'], sign=[1.0, 1.0, 1.0, 1.0, float(info['sign5']), 1.0], search='true', part='B', prop=prop)
+            if info['cvars'] is not None: c['constrained'] = 'true'
+            if kw.get('prev') == 'sentinel': c['sentinel'] = 'true'
+            return c
+        return f
+    def structural(prop, nm, ok, ctx=()):
+        ck.decide(label + nm, eng, list(ctx), z3.BoolVal(not ok), lambda m: search(prop)(), what=label + nm + ' fails', nomodel_case=search(prop), tries=1)
+    def solver(prop, nm, ctx, goal):
+        ck.decide(label + nm, eng, list(ctx), goal, lambda m: search(prop)(), what=label + nm + ' fails', nomodel_case=search(prop), abstract=True, tries=1)
+    if info['dof'] == 5 and name == 'inverse_continuing':
+        # a robot declared 5-DOF must answer like inverse_continuing_5dof
+        structural('C06', 'dof=5: the 5-DOF kernel is used and the result is normalised, sorted and filtered', bool(info['filter_calls']) and bool(info['sort_calls']) and bool(S) and S[0]['five'])
+    for st, out in info['results']:
+        ctx = list(st.pc)
+        fc = [c for c in info['filter_calls'] if same(c['out'], out)]
+        structural('C08', 'the returned list is the output of the constraint filter', bool(fc), ctx)
+        if not fc: continue
+        sc = [c for c in info['sort_calls'] if len(c['lst'].ents) == len(fc[-1]['lst'].ents) and all(same(x, y) for x, y in zip(c['lst'].items, fc[-1]['lst'].items))]
+        structural('C04', 'the filtered list is the list that was sorted by closeness (same elements)', bool(sc), ctx)
+        if not sc: continue
+        sc = sc[-1]
+        # effective previous handed to the sort
+        if prev is not None: peff = [F(x) for x in prev]
+        elif info['cvars'] is not None: peff = [F(x) for x in info['cvars'][0]]
+        else: peff = [fconst(0)] * 6
+        structural('C04', 'sorting is relative to the effective previous (given joints, or constraint centres / zeros for the sentinel)', all(same(a_, b_) for a_, b_ in zip(sc['prev'].items, peff)), ctx)
+        elems = list(sc['lst'].items)
+        cands = [a for a, r in info['forward']]
+        srcs = []
+        for ei, el in enumerate(elems):
+            src_j = []; okn = True
+            for j in range(6):
+                nc = [c for c in info['norm_calls'] if same(c['out'], el.items[j])]
+                if not nc or not same(nc[-1]['prev'], peff[j]): okn = False; src_j.append(None); continue
+                src_j.append(nc[-1]['src'])
+            structural('C04', f'element {ei}: every joint went through normalize_near against the effective previous of that joint', okn, ctx)
+            if not okn: srcs.append(None); continue
+            which = None
+            for k, s_ in enumerate(first):
+                if all(same(src_j[j], s_.items[j]) for j in range(6)): which = ('kernel', k)
+            srcs.append(which)
+            if which is None:
+                # not a kernel answer: it must be one of the singular candidates (the end state merges the paths of the four shifted re-solves),
+                # and that candidate must have passed the cross-check against the UNSHIFTED pose and the limits
+                alts = []
+                for c in cands:
+                    gate = gate_of(info, c, pose); cc = [x for x in info['ccomp_calls'] if same(x['arg'], c)]
+                    if gate is None or not cc: continue
+                    alts.append(z3.And(*[src_j[j].v == c.items[j].v for j in range(6)], gate, zb(cc[-1]['res'])))
+                solver('C01', f'element {ei} is an answer of the unshifted kernel call, or a singular candidate that passed the pose cross-check (unshifted pose) and the limits', ctx, z3.Not(z3.Or(alts)) if alts else z3.BoolVal(True))
+                if prev is not None and 'C05' in props:
+                    solver('C05', f'element {ei} (singular candidate): J4 and J6 move by the same amount from previous', ctx, src_j[3].v - prev[3] != src_j[5].v - prev[5])
+        kern = [w[1] for w in srcs if w and w[0] == 'kernel']
+        structural('C04', 'every answer of the unshifted kernel call is kept, once, in order (superset of plain inverse before filtering)', kern == list(range(len(first))), ctx)
+        structural('C01', 'at most one extra (singular) answer', len(elems) - len(kern) <= 1, ctx)
+        if five and 'C06' in props:
+            want = prev[5] if prev is not None else None
+            structural('C06', 'the 5-DOF kernel received the previous J6', bool(S) and S[0]['j6'] is not None and (want is None or same(S[0]['j6'], F(want))), ctx)
+            if want is not None:
+                for ei, el in enumerate(elems): solver('C06', f'element {ei}: J6 equals the previous J6', ctx, el.items[5].v != want)
+    for ob in eng.obligations:
+        ck.decide(label + f"{ob['kind']} unreachable: {ob['msg'][:40]}", eng, [ob['cond']], z3.BoolVal(True), lambda m: search('C01')(), nomodel_case=search('C01'), abstract=True, tries=1)
+    return info
+
 def free_pose_(tag):
     return Iso(Mat(3, 3, [F(z3.Real(f'{tag}_r{i}{k}')) for i in range(3) for k in range(3)], 'rot'), Mat(3, 1, [F(z3.Real(f'{tag}_t{i}')) for i in range(3)]))
 
 def c01_part_b(ck): pass
+
+# =====================================================================================================================
+# obligations over the result of entry()
+def abs_(x): return z3.If(x >= 0, x, -x)
+
+def match_mod(v, src, exact=False, joints=range(6)):
+    """v is src up to whole turns per joint (exact: identical)"""
+    cs = []
+    for j in joints:
+        a, b = v.items[j].v, src.items[j].v
+        cs.append(a == b if exact else z3.Or(a == b, a == b + TWO_PI, a == b - TWO_PI, a == b + 2 * TWO_PI, a == b - 2 * TWO_PI))
+    return z3.And(cs)
+
+def compliant_spec(info, v):
+    """acceptance by the attached limits, as a formula: the distance of v_j to the centre, folded into [0,pi], is at most the half-width"""
+    if info['cvars'] is None: return z3.BoolVal(True)
+    cen, tol, w = info['cvars']; cs = []
+    for j in range(6):
+        k = z3.FreshInt('kc'); d = z3.FreshReal('dc')
+        info['spec_defs'] += [d == abs_(v.items[j].v - cen[j]) - TWO_PI * z3.ToReal(k), d >= 0, d < TWO_PI]
+        cs.append(z3.If(d > PI, TWO_PI - d, d) <= tol[j])
+    return z3.And(cs)
+
+def gate_of(info, cand, pose, five=False):
+    """did the code compare forward(cand) with `pose` within 1e-6/1e-6 ? (looked up in the oracle logs)"""
+    Fs = [r for a, r in info['forward'] if same(a, cand)]
+    if not Fs: return None
+    n = ik.norm_of_diff(info, pose.t, Fs[-1].t)
+    if n is None: return None
+    g = z3.And(z3.Not(zb(n.poison())), n.v <= ik.TOL)
+    if not five:
+        A = [a for pr, fr_, a in info['angle_to'] if same(fr_, Fs[-1].R) and same(pr, pose.R)]
+        if not A: return None
+        g = z3.And(g, A[-1] <= ik.TOL)
+    return g
+
+def check_entry(ck, name, kw, props):
+    """run one configuration and discharge the obligations of the listed properties"""
+    info = entry(ck, name, **kw)
+    eng = info['eng']; info['spec_defs'] = []
+    five = name.endswith('5dof') or info['dof'] == 5
+    cont = 'continuing' in name
+    label = f"{name}[{','.join(f'{k}={v}' for k, v in kw.items())}]: "
+    S = sorted(info['summaries'], key=lambda r: r['call'])
+    first = S[0]['sols'] if S else []
+    prev = info['prev']; pose = info['pose']
+    def search(prop):
+        def f():
+            c = dict(entry=name, dof=info['dof'], sign=[1.0, 1.0, 1.0, 1.0, float(info['sign5']), 1.0], search='true', part='B', prop=prop)
+            if info['cvars'] is not None: c['constrained'] = 'true'
+            if kw.get('prev') == 'sentinel': c['sentinel'] = 'true'
+            if 'weight' in kw and kw['weight'] is not None: c['weight'] = float(kw['weight'])
+            return c
+        return f
+    def dec(prop, nm, ctx, goal):
+        return ck.decide(label + nm, eng, ctx + info['spec_defs'], goal, lambda m: search(prop)(), what=label + nm + ' fails', nomodel_case=search(prop), tries=1)
+    # effective previous (sentinel -> constraint centres or zeros)
+    if cont:
+        if prev is not None: peff = prev
+        elif info['cvars'] is not None: peff = info['cvars'][0]
+        else: peff = [RV(0)] * 6
+    for st, out in info['results']:
+        ctx = list(st.pc)
+        if not isinstance(out, VecV): dec('C01', 'result is a list', ctx, z3.BoolVal(True)); continue
+        ents = list(out.ents)
+        cands = [a for a, r in info['forward']]
+        # ---- C01: membership / gating / finiteness ----
+        if 'C01' in props:
+            for i, (g, v) in enumerate(ents):
+                alts = [match_mod(v, s, exact=not cont, joints=range(5) if five else range(6)) for s in first]
+                for c in cands:
+                    gate = gate_of(info, c, pose, five=False)
+                    if gate is not None: alts.append(z3.And(match_mod(v, c), gate))
+                dec('C01', f'answer {i} is an answer of the (unshifted) kernel call or the gated singular candidate', ctx + [zb(g)], z3.Not(z3.Or(alts)) if alts else z3.BoolVal(True))
+                dec('C01', f'answer {i} finite', ctx + [zb(g)], z3.Or([zb(v.items[j].poison()) for j in range(5 if five else 6)]))
+        # ---- C06: J6 is the caller's value ----
+        if 'C06' in props and five:
+            want = info['j6'] if name == 'inverse_5dof' else (prev[5] if (prev is not None and name != 'inverse') else None)
+            if name == 'inverse' or (name == 'inverse_continuing' and prev is None): want = None
+            for i, (g, v) in enumerate(ents):
+                if name == 'inverse': goal = z3.Or(zb(v.items[5].poison()), v.items[5].v != 0)
+                elif want is not None: goal = z3.Or(zb(v.items[5].poison()), v.items[5].v != want)
+                else: continue
+                dec('C06', f'answer {i} carries the caller J6', ctx + [zb(g)], goal)
+            # the kernel must have been asked with a finite J6 (otherwise it can return nothing at all)
+            ok = bool(S) and S[0]['five'] and S[0]['j6'] is not None and S[0]['j6'].nan is False
+            dec('C06', 'the 5-DOF kernel is called with a finite J6', ctx, z3.BoolVal(not ok))
+        # ---- C08: exactly the compliant ones ----
+        if 'C08' in props or 'C04' in props:
+            comp_out = [compliant_spec(info, v) for g, v in ents]
+            if 'C08' in props:
+                for i, (g, v) in enumerate(ents): dec('C08', f'answer {i} satisfies the limits', ctx + [zb(g)], z3.Not(comp_out[i]))
+            # every compliant answer of the kernel (first call) is returned (as its representative)
+            for k, s_ in enumerate(first):
+                present = z3.Or([z3.And(zb(g), match_mod(v, s_, exact=not cont, joints=range(5) if five else range(6))) for g, v in ents]) if ents else z3.BoolVal(False)
+                dec('C08' if 'C08' in props else 'C04', f'kernel answer {k} that satisfies the limits is returned', ctx + [compliant_spec(info, s_)], z3.Not(present))
+        # ---- C04: nearest representative, ordering ----
+        if 'C04' in props and cont:
+            for i, (g, v) in enumerate(ents):
+                rng = range(5) if (five and name != 'inverse_continuing_5dof') else range(6)
+                dec('C04', f'answer {i}: every angle is the representative nearest to previous', ctx + [zb(g)], z3.Or([abs_(v.items[j].v - peff[j]) > PI for j in rng]))
+            if not (info['dof'] == 5 and name == 'inverse_continuing') or True:
+                w = info['cvars'][2] if info['cvars'] is not None else RV(0)
+                def cost(v):
+                    dp = sum(abs_(v.items[j].v - peff[j]) for j in range(6))
+                    if info['cvars'] is None: return dp
+                    dc = sum(abs_(v.items[j].v - info['cvars'][0][j]) for j in range(6))
+                    return dp * (1 - w) + dc * w
+                for i in range(len(ents)):
+                    for j in range(i + 1, len(ents)):
+                        dec('C04', f'answers {i},{j} in non-decreasing order of the documented cost', ctx + [zb(ents[i][0]), zb(ents[j][0])], cost(ents[i][1]) > cost(ents[j][1]))
+            # previous realises the pose (it is a kernel answer) and passes the limits => it is the first answer
+            if prev is not None and first and not five:
+                s0 = first[0]
+                hyp = [s0.items[j].v == prev[j] for j in range(6)] + [compliant_spec(info, s0)]
+                nonsing = []
+                for i, (g, v) in enumerate(ents):
+                    firstp = z3.And(zb(g), *[z3.Not(zb(ents[k][0])) for k in range(i)])
+                    dec('C04', f'previous joints realise the pose => they are the first answer (answer {i} first)', ctx + hyp + [firstp], z3.Or([v.items[j].v != prev[j] for j in range(6)]) if False else cost(v) > 0)
+        # ---- C05b: singular candidate moves J4 and J6 by the same amount ----
+        if 'C05' in props and cont and not five and prev is not None:
+            for ci, c in enumerate(cands):
+                dec('C05', f'singular candidate {ci}: J4 and J6 move by the same amount from previous', ctx, c.items[3].v - prev[3] != c.items[5].v - prev[5])
+    # panics / unwinding
+    for ob in eng.obligations:
+        ck.decide(label + f"{ob['kind']} unreachable: {ob['msg'][:40]}", eng, [ob['cond']], z3.BoolVal(True), lambda m: search('C01')(), nomodel_case=search('C01'), abstract=True, tries=1)
+    return info
+
+def configs(ck, props):
+    """(kind, entry point, kwargs): plain pipelines are checked functionally (check_entry), the continuation entry points structurally
+    (check_pipeline) with their components proved separately"""
+    q = ck.tier == 'quick'
+    out = []
+    for dof in (6, 5):
+        for name in ('inverse', 'inverse_5dof'):
+            for cons, wgt in (('none', None), ('sym', 0)):
+                for n in ((2,) if q else (0, 1, 2, 3)):
+                    kw = dict(n=n, dof=dof, cons=cons)
+                    if cons == 'sym': kw['weight'] = wgt
+                    out.append(('entry', name, kw))
+        for name in ('inverse_continuing', 'inverse_continuing_5dof'):
+            for cons, wgt in (('none', None), ('sym', 0)) + ((('sym', 1),) if not q else ()):
+                for prev in ('finite', 'sentinel'):
+                    if prev == 'sentinel' and (name.endswith('5dof') or dof == 5): continue    # the 5-DOF variants need a finite previous J6
+                    for n in ((2,) if q else (0, 1, 2, 3)):
+                        kw = dict(n=n, dof=dof, cons=cons, prev=prev)
+                        if cons == 'sym': kw['weight'] = wgt
+                        out.append(('pipeline', name, kw))
+    return out
+
+def run_props(ck, props):
+    mirdump.load(REPO); ensure_replay()
+    jobs = [('checks.ikentry', 'check_entry' if kind == 'entry' else 'check_pipeline', (name, kw, props)) for kind, name, kw in configs(ck, props)]
+    ck.notes.append(f'{len(jobs)} entry-point configurations')
+    ck.parallel(jobs)
+
+def c01_part_b(ck):
+    run_props(ck, ('C01',))
